@@ -98,10 +98,12 @@ Proof.
   rewrite H1 by lia; cbn [rbind]. rewrite H2 by lia; cbn [rbind]. apply H3; lia.
 Qed.
 
-Lemma G_struct env tname fs t vs t1 :
-  Gevals env (map snd fs) t vs t1 ->
-  Geval env (GStructLit tname fs) t (GVStruct tname (combine (map fst fs) vs)) t1.
-Proof. intros [m1 H1]; exists (S m1); intros m' H; fuel_step m'. rewrite H1 by lia; reflexivity. Qed.
+Lemma G_struct env tname decl fs t vs t1 gfs :
+  Gevals env (map snd fs) t vs t1 -> arrange decl (combine (map fst fs) vs) = Some gfs ->
+  Geval env (GStructLit tname decl fs) t (GVStruct tname gfs) t1.
+Proof.
+  intros [m1 H1] A; exists (S m1); intros m' H; fuel_step m'. rewrite H1 by lia; cbn [rbind]. rewrite A; reflexivity.
+Qed.
 
 Lemma G_slice env es t vs t1 :
   Gevals env es t vs t1 -> Geval env (GSliceLit es) t (GVSlice vs) t1.
